@@ -49,6 +49,9 @@ func runC17(c *Ctx) {
 			continue
 		}
 		for i := 0; i < tn.NumMethods(); i++ {
+			if !tn.Method(i).Exported() {
+				continue // database/sql calls the exported methods only; an unexported helper runs in its callers' lock context
+			}
 			if f := c.a.methodOf(tn, tn.Method(i).Name()); f != nil {
 				entries = append(entries, f)
 			}
